@@ -410,6 +410,8 @@ FRAGMENT_PROBES = [
     ("Nima.C18.cex_blank_lines_around_operator", "C18", "a\n\n\n  + b\n"),
     ("Nima.C18.cex_blank_lines_after_colon", "C18", "x:\n\n\n  y\n"),
     ("Nima.C06.cex_comment_around_semicolon", "C06", "{ a = 1 # c\n; # d\n}"),
+    ("Nima.C06.cex_assert_in_one_line_container", "C06", "{ a = assert x; y; }\n"),
+    ("Nima.C06.cex_assert_in_one_line_container", "C06", "[ (assert x; y) ]\n"),
 ]
 
 
